@@ -224,8 +224,70 @@ def ns_expected(calls):
     return ";".join(outs) + "|P:%s/%s" % (j(adsb), j(commb))
 
 
+def odd_streams(rng, ctx):
+    """inputs outside the property's premises (a DF that contradicts the frame length, line noise between and inside AVR
+    frames, streams that end exactly at a frame boundary, junk before the first start byte): no documented expectation, the
+    proved model and the code must still agree on them"""
+    for k in range(ctx.n(320, 3200)):
+        raw = []
+        for _f in range(rng.randrange(2, 7)):
+            long = rng.random() < 0.5
+            p = rand_msg(rng, long=long)
+            p[0] = (((k + _f) % 32) << 3) | rng.randrange(8)         # every DF with either length
+            raw += beast_frame(rng, p, force_1a=rng.random() < 0.3)
+        if rng.random() < 0.7:
+            raw += [0x1A, 0x33]
+        yield "beast-df", raw
+    noise = [13, 10, 32, 47, 58, 64, 71, 96, 103, 42, 59, 0, 255]
+    for _ in range(ctx.n(40, 400)):
+        raw = []
+        for _f in range(rng.randrange(1, 6)):
+            raw += [rng.choice(noise) for _ in range(rng.randrange(0, 3))]
+            body = [ord(c) for c in hexs(rand_msg(rng))]
+            if rng.random() < 0.4:
+                body.insert(rng.randrange(len(body) + 1), rng.choice(noise))
+            if rng.random() < 0.15:
+                body = body[:rng.randrange(0, 3)]                   # '*;' and one-character frames
+            raw += [42] + body + [59]
+        yield "raw", raw
+    for _ in range(ctx.n(40, 400)):
+        raw, _frames = stream_sky(rng, rng.randrange(1, 5))
+        if rng.random() < 0.5:
+            raw = [rng.randrange(256) for _ in range(rng.randrange(1, 30))] + raw
+        tail = rng.choice([0, 0, 1, 5, 23, 24])
+        raw += [0x24] * min(tail, 1) + [rng.randrange(256) for _ in range(max(tail - 1, 0))]
+        yield "skysense", raw
+
+
 def cases(ctx):
     rng = ctx.rng
+    for fmt, raw in odd_streams(rng, ctx):
+        n = len(raw)
+        rawhex = bytes(raw).hex()
+        if fmt == "beast-df":
+            # the DF / length filter of both Beast readers (the RSSI variant shares it); chunking is not the point here
+            fmt = "beast"
+            cuts = sorted(rng.sample(range(1, n), 2)) if rng.random() < 0.5 else []
+            yield dict(op="feed_beast %s %s" % (rawhex, ",".join(map(str, cuts)) if cuts else "-"),
+                       real=("h:props.C16.run_feed", ["beast", rawhex, cuts]), tag="beast-odd-df", trivial=True, info=dict(fmt="beast", ncuts=len(cuts)))
+            yield dict(op="feed_beast %s %s" % (rawhex, ",".join(map(str, cuts)) if cuts else "-"),
+                       real=("h:props.C16.run_feed_rssi", [rawhex, cuts]), tag="beast-rssi-odd-df", trivial=True, info=dict(fmt="beast_rssi", ncuts=len(cuts)))
+            continue
+        seglist = [[]] + [[c] for c in range(1, n, 1 if ctx.thorough else 3)] + [list(range(1, n))]
+        for _ in range(3):
+            if n > 4:
+                seglist.append(sorted(rng.sample(range(1, n), min(rng.randrange(2, 8), n - 1))))
+        for cuts in seglist:
+            yield dict(op="%s %s %s" % ("feed_" + fmt, rawhex, ",".join(map(str, cuts)) if cuts else "-"),
+                       real=("h:props.C16.run_feed", [fmt, rawhex, cuts]), tag=fmt + "-odd", trivial=True, info=dict(fmt=fmt, ncuts=len(cuts)))
+    for _ in range(ctx.n(100, 1000)):
+        # NetSource / RtlSdrSource with messages of unusual lengths
+        calls = [[hexs(rand_msg(rng, long=rng.random() < 0.8))[:rng.choice([28, 28, 27, 26, 14, 13, 2, 1])] + rng.choice(["", "", "0", "8D"])
+                  for _m in range(rng.randrange(0, 5))] for _c in range(rng.randrange(1, 5))]
+        calls = [[m for m in c if m] for c in calls]
+        op = "ns " + ";".join(",".join(c) if c else "-" for c in calls)
+        yield dict(op=op, real=("h:props.C16.ns_run", [calls]), tag="netsource-odd", trivial=True)
+        yield dict(op=op, real=("h:props.C16.ns_run", [calls, "RtlSdrSource"]), tag="rtlsdrsource-odd", trivial=True)
     for _ in range(ctx.n(300, 5000)):
         calls = []
         for _c in range(rng.randrange(1, 7)):
